@@ -563,6 +563,63 @@ m("C11", "resume-records-before-transport", IMPL,
   "	err := pausable.ResumeChannel(ctx, m.pauseMessage(chid), chid)\n	if err != nil {\n		log.Warnf(\"Error attempting to resume at transport level: %s\", err.Error())\n	}\n\n	return m.resume(chid)",
   "C11.4", "resume announced with a pause message")
 
+# ---------------- C12
+SCH = "message/message1_1prime/schema.ipldsch"
+TRQ = "message/message1_1prime/transfer_request.go"
+TRS = "message/message1_1prime/transfer_response.go"
+m("C12", "ipld-missing-body-check-removed", MSG,
+  "	tresp := tm.(*TransferMessage1_1)\n\n	if (tresp.IsRequest && tresp.Request == nil) || (!tresp.IsRequest && tresp.Response == nil) {\n		return nil, errors.New(\"invalid/malformed message\")\n	}\n\n	if tresp.IsRequest {\n		return tresp.Request, nil\n	}\n	return tresp.Response, nil\n}\n",
+  "	tresp := tm.(*TransferMessage1_1)\n\n	if tresp.IsRequest {\n		return tresp.Request, nil\n	}\n	return tresp.Response, nil\n}\n",
+  "C12.2", "missing-body check removed from a decoder", "calibration")
+m("C12", "wire-name-renamed", SCH,
+  "(rename \"XferID\")\n	RestartChannel",
+  "(rename \"XferId\")\n	RestartChannel",
+  "C12.1", "request transfer id renamed on the wire")
+m("C12", "field-order-changed", SCH,
+  "	MessageType                    Int            (rename \"Type\")\n	RequestAccepted                Bool           (rename \"Acpt\")",
+  "	RequestAccepted                Bool           (rename \"Acpt\")\n	MessageType                    Int            (rename \"Type\")",
+  "C12.1", "response fields reordered (Go struct no longer matches by position)")
+m("C12", "message-type-inserted", "message/types/message_types.go",
+  "	VoucherResultMessage\n\n	RestartMessage",
+  "	VoucherResultMessage\n	KeepAliveMessage\n\n	RestartMessage",
+  "C12.1", "message type inserted in the middle renumbers Restart")
+m("C12", "voucher-kind-widened", TRQ,
+  "	return trq.MessageType == uint64(types.VoucherMessage) || trq.MessageType == uint64(types.NewMessage)",
+  "	return trq.MessageType == uint64(types.VoucherMessage) || trq.MessageType == uint64(types.NewMessage) || trq.MessageType == uint64(types.RestartMessage)",
+  "C12.3", "restart requests also classified as voucher requests")
+m("C12", "validation-result-loses-restart", TRS,
+  " ||\n		trsp.MessageType == uint64(types.RestartMessage)\n}",
+  "\n}",
+  "C12.3", "restart responses no longer carry a validation result")
+m("C12", "cancel-response-type", MSG,
+  "func CancelResponse(id datatransfer.TransferID) datatransfer.Response {\n	return &TransferResponse1_1{\n		MessageType: uint64(types.CancelMessage),",
+  "func CancelResponse(id datatransfer.TransferID) datatransfer.Response {\n	return &TransferResponse1_1{\n		MessageType: uint64(types.CompleteMessage),",
+  "C12.5", "cancel response built with the Complete type number")
+m("C12", "voucher-type-dropped", MSG,
+  "		MessageType:           uint64(types.VoucherMessage),\n		VoucherPtr:            voucher.Voucher,\n		VoucherTypeIdentifier: voucher.Type,",
+  "		MessageType:           uint64(types.VoucherMessage),\n		VoucherPtr:            voucher.Voucher,",
+  "C12.5", "voucher request loses its type identifier")
+m("C12", "protocol-id-changed", "message.go",
+  "\"/fil/datatransfer/1.2.0\"",
+  "\"/fil/datatransfer/1.2.1\"",
+  "C12.1", "protocol id changed: no peer speaks it")
+m("C12", "extension-name-changed", "transport/graphsync/extension/gsextension.go",
+  "graphsync.ExtensionName(\"fil/data-transfer/1.1\")",
+  "graphsync.ExtensionName(\"fil/data-transfer/1.2\")",
+  "C12.1", "graphsync extension renamed")
+m("C12", "net-wrong-body", MSG,
+  "	if tresp.IsRequest {\n		return tresp.Request, nil\n	}\n	return tresp.Response, nil\n}\n\n// FromNet can read a network stream to deserialize a GraphSyncMessage\nfunc FromIPLD",
+  "	if !tresp.IsRequest {\n		return tresp.Request, nil\n	}\n	return tresp.Response, nil\n}\n\n// FromNet can read a network stream to deserialize a GraphSyncMessage\nfunc FromIPLD",
+  "C12.2", "network decoder returns the absent body")
+m("C12", "accepted-ignores-error", MSG,
+  "		RequestAccepted:       validationErr == nil && validationResult.Accepted,",
+  "		RequestAccepted:       validationResult.Accepted,",
+  "C12.4", "validation response reports acceptance although validation erred", "calibration")
+m("C12", "stor-not-nullable", SCH,
+  "	SelectorPtr           nullable Any            (rename \"Stor\")",
+  "	SelectorPtr                    Any            (rename \"Stor\")",
+  "C12.1", "selector no longer nullable: cancel/update requests from old peers fail to decode")
+
 by = collections.defaultdict(list)
 for x in M:
     p = x.pop("prop")
